@@ -31,8 +31,29 @@ fn arg_value(args: &[String], name: &str) -> Option<String> {
         .and_then(|i| args.get(i + 1).cloned())
 }
 
+struct StderrLogger;
+impl log::Log for StderrLogger {
+    fn enabled(&self, m: &log::Metadata) -> bool {
+        m.level() <= log::Level::Debug && (m.target().starts_with("ckb_chain") || m.target().starts_with("ckb_shared") || m.target().starts_with("ckb_tx_pool"))
+    }
+    fn log(&self, r: &log::Record) {
+        if self.enabled(r.metadata()) {
+            eprintln!("[{} {}] {}", r.level(), r.target(), r.args());
+        }
+    }
+    fn flush(&self) {}
+}
+static LOGGER: StderrLogger = StderrLogger;
+
 fn main() {
+    if std::env::var("VERIF_LOG").is_ok() {
+        let _ = log::set_logger(&LOGGER);
+        log::set_max_level(log::LevelFilter::Debug);
+    }
     let args: Vec<String> = std::env::args().collect();
+    if args.len() >= 5 && args[1] == "crashrun" {
+        std::process::exit(props::c08::crashrun_main(&args[2..]));
+    }
     if args.len() < 3 {
         eprintln!("usage: ckbmc check|worker <ID> [--tier quick|thorough] [--replay file]");
         std::process::exit(2);
